@@ -48,6 +48,17 @@
 //     address (in its own package: the bare identifier, not shadowed; elsewhere: <pkgname>.<Name>);
 //     method-called = a method is called on it (or on one of its elements / fields), the way a shared
 //     hash.Hash, *bytes.Buffer, sync.Pool ... is mutated.
+//
+//   - addr_escaping: the package-level variables whose address is taken outside init();
+//     addr_flows: where each such address goes, syntactically: "field:<F>" (composite literal `F: &v`
+//     or `x.F = &v`), "return:<func>", "arg:<callee>", "other:<func>";
+//     deref_writes: every EXPLICIT write through a pointer dereference (`*E = ..`, `*E op= ..`, `*E++`,
+//     `*E--`) under pkg/ whose target E ends in a field that receives such an address or is called
+//     Offset / Generation (the *int64 fields of cross-reference entries), or is a bare identifier
+//     whose name starts with "off" or "gen", as (function, target field or *ident, count).
+//     Audit.v must list exactly these sets (C40_escaping_pointees_audited): a new write through such
+//     a pointer, a new escaping address or a new flow breaks the proof.  (Implicit dereferences
+//     `p.f = ..` through struct pointers are NOT seen; the sentinel oracle of the harness covers them.)
 //     The audit lists in coq/C40/Audit.v must cover every non-immutable-typed variable and every
 //     written / method-called one, so that a NEW piece of package-level state breaks the proof.
 //
@@ -756,6 +767,7 @@ type pvar struct {
 	spec             *ast.ValueSpec
 	immutable        bool
 	written, methodc bool
+	addr             bool
 	file             string
 	line             int
 }
@@ -841,7 +853,15 @@ func root(e ast.Expr) ast.Expr {
 	}
 }
 
+type derefKey struct{ fn, target string }
+
 type inventory struct {
+	flows    map[[2]string]bool
+	derefs   map[derefKey]int
+	allDeref []struct {
+		fn, field string
+		bare      bool
+	}
 	vars   []*pvar
 	byPkg  map[string]map[string]*pvar // package name -> var name -> var
 	bySpec map[*ast.ValueSpec][]*pvar
@@ -879,7 +899,7 @@ func (inv *inventory) resolve(curPkg string, e ast.Expr) *pvar {
 }
 
 func buildInventory(repo string, dirs []string) *inventory {
-	inv := &inventory{byPkg: map[string]map[string]*pvar{}}
+	inv := &inventory{byPkg: map[string]map[string]*pvar{}, flows: map[[2]string]bool{}, derefs: map[derefKey]int{}}
 	type pf struct {
 		pkg string
 		f   *ast.File
@@ -944,16 +964,68 @@ func buildInventory(repo string, dirs []string) *inventory {
 					}
 				}
 			}
+			fn := x.pkg + "." + fd.Name.Name
+			if fd.Recv != nil && len(fd.Recv.List) == 1 {
+				t := fd.Recv.List[0].Type
+				if st, ok := t.(*ast.StarExpr); ok {
+					t = st.X
+				}
+				if id, ok := t.(*ast.Ident); ok {
+					fn = x.pkg + "." + id.Name + "." + fd.Name.Name
+				}
+			}
+			deref := func(e ast.Expr) {
+				// explicit write through a dereference: *E ...
+				for {
+					if p, ok := e.(*ast.ParenExpr); ok {
+						e = p.X
+						continue
+					}
+					break
+				}
+				st, ok := e.(*ast.StarExpr)
+				if !ok {
+					return
+				}
+				t := st.X
+				for {
+					if p, ok := t.(*ast.ParenExpr); ok {
+						t = p.X
+						continue
+					}
+					break
+				}
+				switch y := t.(type) {
+				case *ast.SelectorExpr:
+					inv.allDeref = append(inv.allDeref, struct {
+						fn, field string
+						bare      bool
+					}{fn, y.Sel.Name, false})
+				case *ast.Ident:
+					inv.allDeref = append(inv.allDeref, struct {
+						fn, field string
+						bare      bool
+					}{fn, y.Name, true})
+				}
+			}
+			var stack []ast.Node
 			ast.Inspect(fd.Body, func(n ast.Node) bool {
+				if n == nil {
+					stack = stack[:len(stack)-1]
+					return true
+				}
+				stack = append(stack, n)
 				switch s := n.(type) {
 				case *ast.AssignStmt:
 					if s.Tok != token.DEFINE {
 						for _, l := range s.Lhs {
 							mark(l, false)
+							deref(l)
 						}
 					}
 				case *ast.IncDecStmt:
 					mark(s.X, false)
+					deref(s.X)
 				case *ast.RangeStmt:
 					if s.Tok == token.ASSIGN {
 						if s.Key != nil {
@@ -967,6 +1039,31 @@ func buildInventory(repo string, dirs []string) *inventory {
 					if s.Op == token.AND {
 						if _, lit := s.X.(*ast.CompositeLit); !lit {
 							mark(s.X, false)
+							if v := inv.resolve(x.pkg, s.X); v != nil {
+								v.addr = true
+								ctx := "other:" + fn
+								if len(stack) >= 2 {
+									switch par := stack[len(stack)-2].(type) {
+									case *ast.KeyValueExpr:
+										if k, ok := par.Key.(*ast.Ident); ok && par.Value == ast.Expr(s) {
+											ctx = "field:" + k.Name
+										}
+									case *ast.AssignStmt:
+										for i, r := range par.Rhs {
+											if r == ast.Expr(s) && i < len(par.Lhs) {
+												if se, ok := par.Lhs[i].(*ast.SelectorExpr); ok {
+													ctx = "field:" + se.Sel.Name
+												}
+											}
+										}
+									case *ast.ReturnStmt:
+										ctx = "return:" + fn
+									case *ast.CallExpr:
+										ctx = "arg:" + selName(par.Fun)
+									}
+								}
+								inv.flows[[2]string{v.pkg + "." + v.name, ctx}] = true
+							}
 						}
 					}
 				case *ast.CallExpr:
@@ -976,13 +1073,29 @@ func buildInventory(repo string, dirs []string) *inventory {
 					if se, ok := s.Fun.(*ast.SelectorExpr); ok {
 						// receiver of a method call; <pkg>.<Func>(...) resolves to nothing
 						if v := inv.resolve(x.pkg, se.X); v != nil {
-							// se.X itself must denote the variable (or a part of it), not <pkg>.<Var> being the whole of se
 							v.methodc = true
 						}
 					}
 				}
 				return true
 			})
+		}
+	}
+	// the deref writes that matter: fields that receive a package-level address, Offset / Generation, *off.. / *gen..
+	fields := map[string]bool{"Offset": true, "Generation": true}
+	for k := range inv.flows {
+		if strings.HasPrefix(k[1], "field:") {
+			fields[strings.TrimPrefix(k[1], "field:")] = true
+		}
+	}
+	for _, d := range inv.allDeref {
+		if d.bare {
+			l := strings.ToLower(d.field)
+			if strings.HasPrefix(l, "off") || strings.HasPrefix(l, "gen") {
+				inv.derefs[derefKey{d.fn, "*" + d.field}]++
+			}
+		} else if fields[d.field] {
+			inv.derefs[derefKey{d.fn, d.field}]++
 		}
 	}
 	sort.SliceStable(inv.vars, func(i, j int) bool {
@@ -1121,6 +1234,41 @@ func main() {
 			sep = ""
 		}
 		w("  (%q%%string, (%v, (%v, %v)))%s   (* %s:%d *)\n", v.pkg+"."+v.name, v.immutable, v.written, v.methodc, sep, v.file, v.line)
+	}
+	w("].\n\n")
+	var esc []string
+	for _, v := range inv.vars {
+		if v.addr {
+			esc = append(esc, v.pkg+"."+v.name)
+		}
+	}
+	w("(* package-level variables whose address is taken outside init() *)\nDefinition addr_escaping : list string := %s.\n\n", strs(esc))
+	var fl [][2]string
+	for k := range inv.flows {
+		fl = append(fl, k)
+	}
+	sort.Slice(fl, func(i, j int) bool { return fl[i][0]+"\x00"+fl[i][1] < fl[j][0]+"\x00"+fl[j][1] })
+	w("(* where those addresses go *)\nDefinition addr_flows : list (string * string) := [\n")
+	for i, k := range fl {
+		sep := ";"
+		if i == len(fl)-1 {
+			sep = ""
+		}
+		w("  (%q%%string, %q%%string)%s\n", k[0], k[1], sep)
+	}
+	w("].\n\n(* explicit writes through pointer dereferences that could reach such a pointee: (function, (field or *ident, count)) *)\n")
+	var dk []derefKey
+	for k := range inv.derefs {
+		dk = append(dk, k)
+	}
+	sort.Slice(dk, func(i, j int) bool { return dk[i].fn+"\x00"+dk[i].target < dk[j].fn+"\x00"+dk[j].target })
+	w("Definition deref_writes : list (string * (string * N)) := [\n")
+	for i, k := range dk {
+		sep := ";"
+		if i == len(dk)-1 {
+			sep = ""
+		}
+		w("  (%q%%string, (%q%%string, %d))%s\n", k.fn, k.target, inv.derefs[k], sep)
 	}
 	w("].\n")
 	if err := os.WriteFile(*out, []byte(b.String()), 0o644); err != nil {
